@@ -274,7 +274,8 @@ fn is_known(env: &RunEnv, f: &Fail) -> Option<KnownFinding> {
 }
 
 fn write_replay(env: &RunEnv, check: &str, reason: &str, case: &Value) -> String {
-    let dir = format!("{}/replays/found", VERIF_DIR);
+    // WWCHECK_FOUND_DIR: campaigns that run next to other checks keep their replay files apart
+    let dir = std::env::var("WWCHECK_FOUND_DIR").unwrap_or_else(|_| format!("{}/replays/found", VERIF_DIR));
     let _ = std::fs::create_dir_all(&dir);
     let body = json!({
         "property": env.property,
@@ -971,6 +972,14 @@ pub mod gen {
     }
 
     /// `k/65536` of `q`, rounded down; k = 65535 is mapped to the whole quantity.
+    /// Selector for "a share of what I hold" (see [`frac`]): uniform, but with the whole holding
+    /// (u16::MAX), nothing and one 65536th weighted in — "everything" is where the last-one-out and
+    /// lock-up clauses live, and a uniform u16 hits it once in 65 536 draws.
+    pub fn share_sel() -> BoxedStrategy<u16> {
+        use proptest::prelude::*;
+        prop_oneof![6 => any::<u16>(), 2 => Just(u16::MAX), 1 => Just(0u16), 1 => Just(1u16)].boxed()
+    }
+
     pub fn frac(sel: u16, q: u128) -> u128 {
         if sel == u16::MAX {
             return q;
